@@ -2,8 +2,8 @@ package main
 
 import (
 	"go/constant"
-	"sort"
 	"go/types"
+	"sort"
 	"strings"
 
 	"golang.org/x/tools/go/ssa"
@@ -161,7 +161,9 @@ func checkCLIFiles(p *Program, r *Result) {
 							if strings.HasPrefix(x, "main.absPath(") {
 								want = "main.absPath(" + nameT + ")"
 							}
-							isElem := func(s string) bool { return strings.HasPrefix(s, "Elem(Phi[inUseFiles]") || strings.HasPrefix(s, "Elem(") }
+							isElem := func(s string) bool {
+								return strings.HasPrefix(s, "Elem(Phi[inUseFiles]") || strings.HasPrefix(s, "Elem(")
+							}
 							return (isElem(x) && strings.HasSuffix(y, "absPath("+nameT+")")) || (isElem(y) && strings.HasSuffix(x, "absPath("+nameT+")")) || x == want || y == want
 						}); ok {
 							cmpLoop = l
